@@ -212,6 +212,22 @@ def block_diagonal(M, C):
                     C.append((tag + f"/block-{name}-uses-own-block-and-vector-part", core.DISCHARGED if st != "differs" else core.FAILED, "symla:" + be, 0.0, detail, wit))
     except Exception as e:  # noqa: BLE001
         C.append((tag + "/tuple-of-block-gradients", core.FAILED, "symla", 0.0, f"{type(e).__name__}: {e}", None))
+    # blocks that are EQUAL AS MATRICES (== / hash) but built from different parameters: R R^T == (-R)(-R)^T, gradients with respect to R and -R differ in sign
+    tage = tag + "[two blocks equal as matrices, parameters R and -R]"
+    try:
+        R = mat("r", 1, 2)
+        be = [M.DensePositiveDefiniteProductMatrix(R), M.DensePositiveDefiniteProductMatrix(-1 * R)]
+        Y = M.PositiveDefiniteBlockDiagonalMatrix(tuple(be))
+        w = vec("y", 2)
+        e1, e2 = Y.grad_log_abs_det, Y.grad_quadratic_form_inv(w)
+        for k, b in enumerate(be):
+            fresh = M.DensePositiveDefiniteProductMatrix(R if k == 0 else -1 * R)
+            for name, got, want in (("grad_log_abs_det", e1[k], fresh.grad_log_abs_det), ("grad_quadratic_form_inv", e2[k], fresh.grad_quadratic_form_inv(w[k:k + 1]))):
+                st, be_, detail, wit = compare(got, want)
+                C.append((tage + f"/block-{k}-{name}-is-with-respect-to-its-own-parameter", core.DISCHARGED if st != "differs" else core.FAILED, "symla:" + be_, 0.0, detail, wit))
+    except Exception as e:  # noqa: BLE001
+        from ..symla import is_artefact
+        C.append((tage + "/constructs", core.UNKNOWN if is_artefact(e) else core.FAILED, "symla", 0.0, f"{type(e).__name__}: {e}", None))
     # "gradient with the structure of the parameter": a block that is itself block diagonal has a nested parameter (a, (b, c))
     tagn = tag + "[nested block]"
     try:
